@@ -42,3 +42,17 @@ Theorem C17_editors_append_bytes : forall buf,
      build_object_w ks (map enc vs) buf = res_map (app buf) (build_object_w ks (map enc vs) [])).
 Proof. exact editors_append_bytes. Qed.
 Print Assumptions C17_editors_append_bytes.
+(* ---- BEGIN edit2: the byte editors of EditWalk2.v (object_insert / object_delete / object_pick / strip_nulls /
+   delete_by_keypath) on encodings: the bytes already in the buffer stay, what is appended does not depend on them,
+   an error appends nothing ---- *)
+From JB Require Import DispatchProofs EditWalk2 EditWalk2Proofs.
+Theorem C17_bytes_edit2_appends : forall v, wfb v = true -> top_ok v -> forall buf,
+  (forall ks, object_delete_w (enc v) ks buf = res_map (app buf) (object_delete_w (enc v) ks [])) /\
+  (forall ks, object_pick_w (enc v) ks buf = res_map (app buf) (object_pick_w (enc v) ks [])) /\
+  strip_nulls_w (enc v) buf = res_map (app buf) (strip_nulls_w (enc v) []) /\
+  (forall ks, delete_by_keypath_w (enc v) ks buf = res_map (app buf) (delete_by_keypath_w (enc v) ks [])) /\
+  (forall x key upd, wfb x = true -> top_ok x -> (forall y, object_insert_t v key x upd = Ok y -> wf_size y = true) ->
+     object_insert_w (enc v) key (enc x) upd buf = res_map (app buf) (object_insert_w (enc v) key (enc x) upd [])).
+Proof. exact edit2_appends. Qed.
+Print Assumptions C17_bytes_edit2_appends.
+(* ---- END edit2 ---- *)
